@@ -1,6 +1,6 @@
-// capacities [30, 254] of the C10/C11 harness
+// capacities [30, 254] (both objects) of the C10/C11 harness
 #include "c10_impl.hpp"
 namespace c10 {
-std::string run_30(const std::vector<std::string>& w) { return run<30>(w); }
-std::string run_254(const std::vector<std::string>& w) { return run<254>(w); }
+std::string run_30_30(const std::vector<std::string>& w) { return run<30, 30>(w); }
+std::string run_254_254(const std::vector<std::string>& w) { return run<254, 254>(w); }
 }
